@@ -22,7 +22,7 @@ FloatValid == {<<"1", 1, 1>>, <<"-1", -1, 1>>, <<"0", 0, 1>>, <<"1.5", 3, 2>>, <
 FloatOther == {"", "abc", "1.5x", "1,5", "1 5", "1e", "e5", "1.2.3", "--1", "1-", "1e5.5", "1d3", ".", "-", "1e+", "x1",
                "+1.5", "5.", ".5", "nan", "inf", "-inf", "NaN", "0x10", "1e400", "1e-400", "true", "1f", "1.0f"}
 VecTable == {"1 2 3", "1,2,3", "1, 2, 3", "-1 0 7", "1\n2\t3", " 1  2   3 ", "1 2", "1 2 3 4", "1 2 x", "1 2 3.5", "1,,2,3", "1 2 3,", "+1 2 3",
-             "1.5 2 3e1", "0.5,0.25", "1e", "7"}
+             "1.5 2 3e1", "0.5,0.25", "1e", "7", "a b,c", "1.5 -2 0.25", "1.5 2", "1 2 3 x", "x,y\tz\nw", "-1e-3 2.5e+2 7"}
 Table == VecTable \cup BoolTable \cup {p[1] : p \in FloatValid} \cup FloatOther
 
 \* two steps (first character, then the rest) so that TLC's workers share the strings
@@ -40,6 +40,8 @@ IntIsFloat == IntClass(s) = "valid" => FloatClass(s) = "valid"
 IntIsVec == IntClass(s) = "valid" => IntVecClass(s) = "valid" /\ IntVecVal(s) = <<IntVal(s)>>
 BitIsBoth == Trim(s) \in {"0", "1"} => BoolClass(s) = "valid" /\ IntClass(s) = "valid" /\ (BoolVal(s) <=> IntVal(s) = 1)
 TokensClean == LET w == Tokens(s, VecSeps) IN \A k \in 1..Len(w) : Len(w[k]) > 0 /\ \A i \in 1..Len(w[k]) : Ch(w[k], i) \notin VecSeps
+D3IsVec == /\ (FloatVec3Class(s) = "valid" => FloatVecClass(s) = "valid" /\ Len(StrVecVal(s)) = 3)
+           /\ (IntVec3Class(s) = "valid" => FloatVec3Class(s) = "valid")
 Vec3IsVec == IntVec3Class(s) = "valid" => IntVecClass(s) = "valid" /\ Len(IntVecVal(s)) = 3
 FloatTableOk == /\ \A p \in FloatValid : FloatClass(p[1]) = "valid"
                 /\ \A x \in {"", "abc", "1.5x", "1,5", "1 5", "1e", "e5", "1.2.3", "--1", "1-", "1e5.5", "1d3", ".", "-", "1e+", "x1", "true", "1f", "1.0f"} : FloatClass(x) = "invalid"
@@ -54,5 +56,8 @@ Vector == (Emit /\ done) => PrintT(ToJson(
     v |-> IntVecClass(s), vv |-> IF IntVecClass(s) = "valid" THEN IntVecVal(s) ELSE <<>>,
     v3 |-> IntVec3Class(s),
     f |-> FloatClass(s), fr |-> FloatRat,
-    fv |-> FloatVecClass(s)]))
+    fv |-> FloatVecClass(s),
+    d3 |-> FloatVec3Class(s),
+    \* the words of as<vector<string>>; svc: compared (no empty words in play)
+    sv |-> StrVecVal(s), svc |-> ~CommaOdd(s)]))
 =============================================================================
